@@ -103,56 +103,97 @@ def rule_H2(ctx: Ctx) -> None:
         ctx.judge(f.owner, ok, {"field": name, "keys_read": sorted(keys), **extra, "loading_fn": X.U(lf)[:200]}, exp,
                   "the loaded configuration gets another field's value / coordinate lists come back as lists (config != original, endpoint sets never match)")
     lm = ctx.index.func(f"{MD}._load_maze_ctor")
-    sub = [n for n in ast.walk(lm.node) if isinstance(n, ast.Subscript) and X.U(n.value) == "GENERATORS_MAP"]
-    ok = len(sub) == 2 and any(X.same_expr(n.slice, f"{lm.params()[0]}['__name__']") for n in sub)
-    ctx.judge(lm, ok, {"lookups": [X.U(n) for n in sub]}, "the generator is restored as GENERATORS_MAP[serialized['__name__']] (C01.B6: keys are the functions' own names)",
+    from sa import dtable as DT
+
+    p0 = lm.params()[0]
+    rows = DT.table(lm.node, {"is_dict": [f"isinstance({p0}, dict)"], "is_str": [f"isinstance({p0}, str)"]})
+
+    def expected(a):
+        if a["is_dict"]:
+            return lambda o: o[0] == "return" and X.same_expr(o[1], f"GENERATORS_MAP[{p0}['__name__']]")
+        if a["is_str"]:
+            return lambda o: o[0] == "return" and X.same_expr(o[1], f"GENERATORS_MAP[{p0}]")
+        return lambda o: o[0] == "raise"
+    okt, rep = DT.judge_table(rows, expected)
+    ctx.judge(lm, okt, {"table": rep}, "the generator is restored as GENERATORS_MAP[serialized['__name__']] (C01.B6: keys are the functions' own names); a bare name (old format) is looked up directly; anything else raises",
               "a reloaded config uses another generator than the one it was saved with")
     af = fields["applied_filters"]
     df = af.kwarg("deserialize_fn")
     ok = df is not None and X.U(df) == "_load_applied_filters"
     la = ctx.index.func(f"{DS}._load_applied_filters")
-    lc = [n for n in ast.walk(la.node) if isinstance(n, ast.ListComp)]
-    rec_ok = False
-    if len(lc) == 1:
-        fi = X.U(lc[0].generators[0].target)
-        rec_ok = X.same_expr(X.record_value(lc[0].elt, "name"), f"{fi}['name']") and X.same_expr(X.record_value(lc[0].elt, "args"), f"tuple({fi}['args'])") \
-            and X.same_expr(X.record_value(lc[0].elt, "kwargs"), f"dict({fi}['kwargs'])") and X.U(lc[0].generators[0].iter) == la.params()[0] and not lc[0].generators[0].ifs
-    ctx.judge(la, ok and rec_ok, {"deserialize_fn": X.U(df), "record": X.U(lc[0].elt)[:160] if lc else None},
-              "applied_filters are reloaded entry by entry, in order, with args restored as a tuple",
-              "a reloaded config's filter list differs from the original (list vs tuple args, dropped entries)")
+    # abstract evaluation on a symbolic filter history (names deliberately not in alphabetical order, a repeated name, list-valued args):
+    # the loader must return the same entries in the same order, args as tuples, kwargs as dicts
+    from sa.fold import EvalRaised, Evaluator, Unknown
+
+    hist = [{"name": "truncate_count", "args": [5], "kwargs": {}}, {"name": "path_length", "args": [[1, 2], 3], "kwargs": {"min_length": 4}},
+            {"name": "__custom__:f", "args": [], "kwargs": {"k": [1]}}, {"name": "path_length", "args": [7], "kwargs": {}}]
+    want = [{"name": h_["name"], "args": tuple(h_["args"]), "kwargs": dict(h_["kwargs"])} for h_ in hist]
+    import copy as _copy
+
+    rec_ok: bool | None
+    try:
+        got = Evaluator().run_body(X.body_wo_doc(la.node), {la.params()[0]: _copy.deepcopy(hist)})
+        rec_ok = isinstance(got, list) and got == want and all(isinstance(g["args"], tuple) and isinstance(g["kwargs"], dict) for g in got)
+        shown = got
+    except EvalRaised as e:
+        rec_ok, shown = False, f"raises {e.exc_name}"
+    except Unknown as e:
+        rec_ok, shown = None, f"undecided: {e}"[:160]
+    ctx.judge(la, (ok and rec_ok) if rec_ok is not None else None, {"deserialize_fn": X.U(df), "abstract_history": [h_["name"] for h_ in hist],
+                                                                     "loaded": [g.get("name") if isinstance(g, dict) else g for g in shown] if isinstance(shown, list) else shown},
+              "applied_filters are reloaded entry by entry, in their recorded order, with args restored as a tuple and kwargs as a dict",
+              "a reloaded config's filter list differs from the original (reordered, list vs tuple args, dropped entries): config != original, its hash and file name change")
+
+
+def _const(ctx: Ctx, fn, e: ast.AST):
+    "constant value of an expression built from literals and module-level constants (None if it is not one)"
+    from sa.fold import Evaluator, Unknown
+
+    env = {}
+    for k, v in fn.module.assigns.items():
+        try:
+            env[k] = Evaluator().ev(v, {})
+        except Exception:
+            pass
+    try:
+        return Evaluator().ev(e, env)
+    except Exception:
+        return None
+
+
+def _fname_template(ctx: Ctx, f, want: list, exp: str, why: str) -> None:
+    "the returned file name is sanitize_fname(<template>) with the wanted literal / expression parts, however the string is assembled"
+    r = X.returns_of(f.node)
+    val = X.expand_locals(r[0].value, f.node) if len(r) == 1 and r[0].value is not None else None
+    wrap = isinstance(val, ast.Call) and dotted_of(val.func) == "sanitize_fname" and len(val.args) == 1
+    tpl = X.str_template(val.args[0]) if wrap else None
+    if tpl is None:
+        ctx.judge(f, None if wrap else False, {"returns": X.U(val)[:200] if val is not None else None}, exp, why)
+        return
+    ok = len(tpl) == len(want)
+    shown = []
+    for got, w in zip(tpl, want):
+        shown.append(got[1] if got[0] == "lit" else "{" + X.U(got[1]) + got[2] + "}")
+        if got[0] != w[0]:
+            ok = False
+        elif got[0] == "lit":
+            ok = ok and got[1] == w[1]
+        elif got[2] not in ("", "!s"):
+            ok = False
+        elif w[1] == "<hash mod 10**5>":
+            v = got[1]
+            ok = ok and isinstance(v, ast.BinOp) and isinstance(v.op, ast.Mod) and X.U(v.left) == "self.stable_hash_cfg()" and _const(ctx, f, v.right) == 100000
+        else:
+            ok = ok and X.same_expr(got[1], w[1])
+    ctx.judge(f, ok, {"template": "".join(shown)[:240]}, exp, why)
 
 
 def rule_H3(ctx: Ctx) -> None:
     f = ctx.index.func(f"{CFG}.to_fname")
-    r = X.returns_of(f.node)
-    js = [n for n in ast.walk(r[0].value) if isinstance(n, ast.JoinedStr)] if r else []
-    exp = "file name = sanitize_fname(f'{name}-g{grid_n}-n{short(n_mazes)}-a_{maze_ctor name without gen_}-h{stable_hash_cfg() % 10**5}')"
-    if len(js) != 1:
-        ctx.unknown(f, {"fstrings": len(js)}, exp)
-        return
-    parts = []
-    for v in js[0].values:
-        if isinstance(v, ast.Constant):
-            parts.append(("lit", v.value))
-        else:
-            parts.append(("expr", v.value))
     want = [("expr", "self.name"), ("lit", "-g"), ("expr", "self.grid_n"), ("lit", "-n"), ("expr", "shorten_numerical_to_str(self.n_mazes)"),
-            ("lit", "-a_"), ("expr", "self.maze_ctor.__name__.removeprefix('gen_')"), ("lit", "-h"), ("expr", "self.stable_hash_cfg() % 10 ** 5")]
-    ok = len(parts) == len(want)
-    if ok:
-        for (k, v), (wk, wv) in zip(parts, want):
-            if k != wk:
-                ok = False
-            elif k == "lit":
-                ok = ok and v == wv
-            else:
-                if wv.endswith("% 10 ** 5"):
-                    ok = ok and isinstance(v, ast.BinOp) and isinstance(v.op, ast.Mod) and X.U(v.left) == "self.stable_hash_cfg()" and N.const_int(v.right) == 100000
-                else:
-                    ok = ok and X.same_expr(v, wv)
-    wrap = len(r) == 1 and isinstance(r[0].value, ast.Call) and dotted_of(r[0].value.func) == "sanitize_fname"
-    ctx.judge(f, ok and wrap, {"fstring": X.U(js[0])[:220]}, exp,
-              "the cache file name drops or alters a component: different configurations share a file / the documented name changes")
+            ("lit", "-a_"), ("expr", "self.maze_ctor.__name__.removeprefix('gen_')"), ("lit", "-h"), ("expr", "<hash mod 10**5>")]
+    _fname_template(ctx, f, want, "file name = sanitize_fname(f'{name}-g{grid_n}-n{short(n_mazes)}-a_{maze_ctor name without gen_}-h{stable_hash_cfg() % 10**5}')",
+                    "the cache file name drops or alters a component: different configurations share a file / the documented name changes")
 
 
 def rule_H4(ctx: Ctx) -> None:
@@ -169,12 +210,11 @@ def rule_H4(ctx: Ctx) -> None:
               "member configs are serialised and reloaded one by one, in order", "a reloaded collection config has other members")
     h = ctx.index.func(f"{CD}.MazeDatasetCollectionConfig.stable_hash_cfg")
     r = X.returns_of(h.node)
-    ctx.judge(h, len(r) == 1 and X.same_expr(r[0].value, "stable_hash(json.dumps(self.serialize()))"), {"returns": X.U(r[0].value) if r else None},
+    ctx.judge(h, len(r) == 1 and X.same_expr_x(r[0].value, h.node, "stable_hash(json.dumps(self.serialize()))"), {"returns": X.U(r[0].value) if r else None},
               "collection hash = stable hash of the JSON of the whole serialized config")
     t = ctx.index.func(f"{CD}.MazeDatasetCollectionConfig.to_fname")
-    txt = X.U(t.node)
-    ok = all(k in txt for k in ("collected-{self.name}", "shorten_numerical_to_str(self.n_mazes)", "self.stable_hash_cfg() % 10 ** 5"))
-    ctx.judge(t, ok, {}, "collection file name = collected-{name}-n{count}-h{hash % 10**5}")
+    _fname_template(ctx, t, [("lit", "collected-"), ("expr", "self.name"), ("lit", "-n"), ("expr", "shorten_numerical_to_str(self.n_mazes)"), ("lit", "-h"), ("expr", "<hash mod 10**5>")],
+                    "collection file name = collected-{name}-n{count}-h{hash % 10**5}", "the collection's cache file name drops or alters a component")
 
 
 RULES = [
